@@ -17,7 +17,12 @@
    raises TypeError) and are truthy iff k > 0; "int" = the plain integer k (None stays None).
    The asynchronous key/predicate/map function is K(e) = e.k (None -> 1); amap's function returns K(e) + 10.
    fk = "none": no function (key=None / predicate None), "plain": an @asynq function, "block": an @asynq function
-   that blocks on one DebugBatchItem before answering. *)
+   that blocks on one DebugBatchItem before answering.
+   aretry cells: fk = the kind of async callable that is retried: "plain" = @asynq plain body, "block" = @asynq generator
+   body (blocks on a DebugBatchItem), "proxy" = an @async_proxy() function, "wrap" = a make_async_decorator wrapper;
+   form = when an attempt fails: "await" = while the returned future is computed, "call" = at call time, before a
+   future is returned (possible for proxy / wrap only).  The property counts attempts and says nothing about when an
+   attempt raises: the prescription is the same. *)
 EXTENDS Naturals, Integers, Sequences, FiniteSets, TLC, Json, IOUtils
 
 MaxLen == IF "MAXLEN" \in DOMAIN IOEnv THEN atoi(IOEnv.MAXLEN) ELSE 3
@@ -62,7 +67,9 @@ Unorderable(es, ek) == Len(es) >= 2 /\ (ek = "obj" \/ \E j \in 1..Len(es) : es[j
 (* ---------------------------------------------------------------- cells *)
 Cell(h, xs, ek, it, form, fk, rev, k, mt, x, ec) ==
   [h |-> h, xs |-> xs, ek |-> ek, it |-> it, form |-> form, fk |-> fk, rev |-> rev, k |-> k, mt |-> mt, x |-> x, ec |-> ec]
-Its == {"list", "tuple", "iter"}
+Its == {"list", "tuple", "gen", "iter", "map", "reversed", "chain"}
+(* "list", "tuple": re-iterable; the rest are ONE-SHOT iterators of different types: a generator, iter(list),
+   a map object, reversed(list), itertools.chain(...) - the built-ins accept them all and so must the helpers *)
 SeqsN(n) == [1..n -> Keys]
 PerElement(h, n) == {Cell(h, xs, "obj", it, "one", fk, 0, 0, 1, "ok", "one") : xs \in SeqsN(n), it \in Its, fk \in {"plain", "block"}}
 NoFunction(h, n, revs) == {Cell(h, xs, ek, it, "one", "none", r, 0, 1, "ok", "one") : xs \in SeqsN(n), ek \in {"obj", "int"}, it \in Its, r \in revs}
@@ -82,8 +89,10 @@ CellsOf(h, n) ==
     [] h \in {"amax", "amin"} -> Extreme(h, n)
     [] h = "aretry" ->
          IF n # 0 THEN {} ELSE
-         {Cell(h, <<>>, "obj", "list", "one", fk, 0, k, mt, x, ec) :
-            fk \in {"plain", "block"}, k \in 0..4, mt \in (-1)..4, x \in {"ok", "unlisted"}, ec \in {"one", "tuple"}}
+         {c \in {Cell(h, <<>>, "obj", "list", at, fk, 0, k, mt, x, ec) :
+                    fk \in {"plain", "block", "proxy", "wrap"}, at \in {"await", "call"},
+                    k \in 0..4, mt \in (-1)..4, x \in {"ok", "unlisted"}, ec \in {"one", "tuple"}} :
+            c.form = "await" \/ c.fk \in {"proxy", "wrap"}}       \* an @asynq body never runs at call time
 (* stage 0: a stub naming helper and input length (so that TLC's workers share the enumeration); stage 1: a cell *)
 Stubs == {Cell(h, <<>>, "obj", "list", "stub", "none", 0, n, 1, "ok", "one") : h \in (IF Part = "all" THEN HelperNames ELSE {Part}), n \in 0..MaxLen}
 
